@@ -365,6 +365,59 @@ pub fn child_drop(id: u32, addr: usize) {
             w.violate(p, o, d);
         }
     });
+    wake_in_drop(id);
+}
+
+/// Fault kind: a child that, while it is being dropped (inside a poll that saw it finish, or inside
+/// the collection's own drop), invokes wakers of that same collection: its own, now stale, waker
+/// and the waker of a sibling that is still held (a sender half waking its receiver).
+fn wake_in_drop(id: u32) {
+    if !with(|w| w.wake_in_drop && !w.frozen) {
+        return;
+    }
+    let invoke = |h: HeldWaker| -> HeldWaker {
+        let child = h.child;
+        with(|w| {
+            w.borrowed.push(h);
+            w.faults[FA_WAKE_IN_DROP] += 1;
+        });
+        // the waker stays in the environment's books (`borrowed`) while it is invoked
+        let wk: *const Waker = with(|w| &w.borrowed.last().unwrap().waker as *const Waker);
+        let prev = F.with(|f| f.in_bracket.replace(true));
+        // SAFETY: `borrowed` is not touched until the entry is popped again below; the World lives
+        // in a thread-local for the whole run
+        invoke_ref(child, unsafe { &*wk });
+        F.with(|f| f.in_bracket.set(prev));
+        with(|w| w.borrowed.pop().unwrap())
+    };
+    let own = with(|w| w.wakers.iter().rposition(|h| h.child == id).map(|i| w.wakers.remove(i)));
+    if let Some(h) = own {
+        let h = invoke(h);
+        with(|w| w.wakers.push(h));
+    }
+    // a sibling that is still held: its waker in the pool, else the one it stored itself
+    let sib = with(|w| {
+        w.wakers
+            .iter()
+            .rposition(|h| h.child != id && w.is_live(h.child))
+            .map(|i| (w.wakers.remove(i), false))
+            .or_else(|| {
+                let s = w.live.iter().copied().rev().find(|&s| s != id && w.children[s as usize].stored.is_some())?;
+                let wk = w.children[s as usize].stored.take()?;
+                Some((HeldWaker { child: s, waker: wk }, true))
+            })
+    });
+    if let Some((h, was_stored)) = sib {
+        let h = invoke(h);
+        with(|w| {
+            let c = &mut w.children[h.child as usize];
+            if was_stored && c.stored.is_none() && c.completed_at.is_none() && c.drops == 0 {
+                c.stored = Some(h.waker);
+            } else {
+                w.wakers.push(h);
+            }
+        });
+    }
 }
 
 // ------------------------------------------------------------------------------------------
